@@ -293,3 +293,52 @@ def rule_R14_cxx(ctx, rep, config="cxx-lib"):
     if not any(x.rule == "R14-c++" for x in rep.findings):
         rep.ok("R14-c++", "all-growth-sites", sample={"growing_calls": nsites, "pointer_uses_examined": nptr})
     rep.floor("R14-c++", "calls of growing methods in the C++ branches of yaep.c", nsites, 20)
+
+
+def rule_R14_entries(ctx, rep, config="c-lib"):
+    rep.rule("R14-entry", "the pointer that find_hash_table_entry returns points into the array of the table, and every later lookup in the same table may expand the table "
+                          "(the expansion test runs at the start of every lookup) and release that array: an entry pointer is not read or written through after another "
+                          "lookup in the same table -- a reserved entry is filled at once, before the next lookup")
+    p = ctx.prog(config)
+    n = 0
+    for f in p.m.defined():
+        if f.module and not f.module.startswith("yaep."):
+            continue
+        finds = []
+        for c in f.calls():
+            g = p.m.functions.get(c.callee or "")
+            sn = (g.d.get("srcname") if g is not None else None) or (c.callee or "")
+            if c.callee == "find_hash_table_entry" or (sn == "find_entry" and "hash_table" in (c.callee or "")):
+                lp = loaded_from(f, c.args[0])
+                finds.append((c, repr(lp) if lp is not None else None))
+        if len(finds) < 2:
+            continue
+        rep.cover(p, [f.name])
+        for (K, tab) in finds:
+            if tab is None:
+                continue
+            uses = [i for i in f.all_insts() if i.op in ("load", "store") and strip_casts(f, i.ops[1] if i.op == "store" else i.ops[0]) == {"k": "i", "v": K.id}]
+            if not uses:
+                continue
+            n += 1
+            key = "%s/entry-of-lookup@%s" % (f.name, K.where().rsplit("/", 1)[-1])
+            bad = None
+            for (K2, tab2) in finds:
+                if K2 is K or tab2 != tab:
+                    continue
+                if not path_exists(f, K, K2, []):
+                    continue
+                for u in uses:
+                    if path_exists(f, K2, u, [K]):
+                        bad = (K2, u)
+                        break
+                if bad:
+                    break
+            if bad:
+                rep.violation("R14-entry", key, "the entry returned by the lookup at %s is used at %s after another lookup in the same table (%s): that lookup can expand the "
+                              "table and release the array the entry points into (write into freed memory), and while the reserved entry is still empty the second "
+                              "lookup can hand out the same place" % (K.where(), bad[1].where(), bad[0].where()), where=bad[1].where(),
+                              witness=[K.where(), bad[0].where(), bad[1].where()])
+            else:
+                rep.ok("R14-entry", key, sample={"lookup": K.where(), "uses": len(uses)})
+    rep.floor("R14-entry", "entry pointers in functions with several lookups", n, 2)
